@@ -273,6 +273,8 @@ inline StepInfo Step(Tape& t, Pool& pool, std::ostream& d, const ProgOptions& op
       case 22: {
         if (!opt.allowMinkowski) break;
         if (a.est > 60 || b.est > 60 || a.est * b.est > 1500) break;
+        // the estimates can be far too low after plane cuts of concave solids; Minkowski evaluates its operands anyway
+        if (a.m.NumTri() > 80 || b.m.NumTri() > 80 || a.m.NumTri() * b.m.NumTri() > 2000) break;
         bool sum = t.flip();
         hdr(sum ? "MinkowskiSum" : "MinkowskiDifference"); d << "(v" << ia << ",v" << ib << ")";
         si.inputs = {ia, ib}; si.topologyChanging = true;
